@@ -1,5 +1,258 @@
-import Ruint.Model.MulKernels
-import Ruint.Model.ShiftKernels
-/-! # C15 — limb-slice kernels (placeholder; theorems follow) -/
+import Ruint.Lemmas.AddmulN
+import Ruint.Lemmas.ShiftKernels
+import Ruint.Lemmas.Add
+
+/-!
+# C15 — limb-slice multiply, accumulate, add, subtract, shift, compare kernels are exact
+
+Property theorems only. The functions are the executable models of `Model/MulKernels.lean`
+(`Ruint.Limb.*`, instantiated at the limb base `W = 2^64`) and `Model/ShiftKernels.lean`
+(`Ruint.Shift.*`) — the ones the correspondence driver `Drv/C15.lean` runs against the real
+`ruint::algorithms::*`. Every theorem holds for **all** slice lengths (`0..∞`, independently per
+argument where the code allows it) and all limb contents (`AllLt` = every limb is a `u64`).
+-/
 namespace Ruint.C15
+open Ruint Ruint.Limb Ruint.Shift
+
+/-! ## `addmul`, `addmul_n` -/
+
+/-- `addmul(lhs, a, b)`: for all three lengths and contents, the accumulator keeps its length, holds
+    `(lhs + a·b) mod 2^(64·len)`, and the returned flag is true exactly when the true value
+    `lhs + a·b` does not fit the accumulator. -/
+theorem addmul_spec (lhs a b : List ℕ) (hl : AllLt lhs) :
+    (addmul W lhs a b).1.length = lhs.length
+    ∧ AllLt (addmul W lhs a b).1
+    ∧ val (addmul W lhs a b).1 = (val lhs + val a * val b) % W ^ lhs.length
+    ∧ ((addmul W lhs a b).2 = true ↔ W ^ lhs.length ≤ val lhs + val a * val b) := by
+  obtain ⟨h1, h2, h3, h4⟩ := Limb.addmul_spec W two_le_W lhs a b hl
+  simp only [valB_W] at h1 h3
+  exact ⟨h2, h4, h1, h3⟩
+
+/-- `addmul_n(lhs, a, b)`: the wrapping equal-length form — each unrolled body (1, 2, 3, 4 limbs)
+    and the generic fall-through; unequal lengths hit the `assert_eq!` (`none` = panic). -/
+theorem addmul_n_spec (lhs a b : List ℕ) (hl : AllLt lhs) :
+    (lhs.length = a.length ∧ lhs.length = b.length →
+      ∃ r, addmulN W lhs a b = some r ∧ r.length = lhs.length ∧ AllLt r
+        ∧ val r = (val lhs + val a * val b) % W ^ lhs.length)
+    ∧ (¬ (lhs.length = a.length ∧ lhs.length = b.length) → addmulN W lhs a b = none) := by
+  obtain ⟨h1, h2⟩ := Limb.addmulN_spec W two_le_W lhs a b hl
+  refine ⟨fun h => ?_, h2⟩
+  obtain ⟨r, e1, e2, e3, e4⟩ := h1 h
+  simp only [valB_W] at e3
+  exact ⟨r, e1, e2, e4, e3⟩
+
+/-! ## `mul_nx1`, `addmul_nx1`, `submul_nx1`, `add_nx1` -/
+
+/-- `mul_nx1(lhs, a)`: `lhs' + W^n·carry = lhs·a`; result limbs and carry are words and are the
+    low part / the exact carry word. -/
+theorem mul_nx1_spec (lhs : List ℕ) (a : ℕ) (hl : AllLt lhs) (ha : a < W) :
+    val (mulNx1 W lhs a).1 + W ^ lhs.length * (mulNx1 W lhs a).2 = val lhs * a
+    ∧ (mulNx1 W lhs a).1.length = lhs.length ∧ AllLt (mulNx1 W lhs a).1 ∧ (mulNx1 W lhs a).2 < W
+    ∧ val (mulNx1 W lhs a).1 = (val lhs * a) % W ^ lhs.length
+    ∧ (mulNx1 W lhs a).2 = (val lhs * a) / W ^ lhs.length := by
+  obtain ⟨h1, h2, h3⟩ := mulNx1Go_spec W W_pos lhs a 0
+  have h4 := mulNx1Go_carry W lhs a 0 hl ha W_pos
+  simp only [valB_W, Nat.add_zero] at h1
+  unfold mulNx1
+  have hlt := val_lt_pow _ h3
+  rw [h2] at hlt
+  obtain ⟨c1, c2⟩ := carry_form _ _ _ _ hlt h1
+  exact ⟨h1, h2, h3, h4, c1, c2⟩
+
+/-- `addmul_nx1(lhs, a, b)` (`|lhs| = |a|`): `lhs' + W^n·carry = lhs + a·b`. -/
+theorem addmul_nx1_spec (lhs a : List ℕ) (b : ℕ) (h : lhs.length = a.length)
+    (hl : AllLt lhs) (ha : AllLt a) (hb : b < W) :
+    val (addmulNx1 W lhs a b).1 + W ^ lhs.length * (addmulNx1 W lhs a b).2 = val lhs + val a * b
+    ∧ (addmulNx1 W lhs a b).1.length = lhs.length ∧ AllLt (addmulNx1 W lhs a b).1
+    ∧ (addmulNx1 W lhs a b).2 < W
+    ∧ val (addmulNx1 W lhs a b).1 = (val lhs + val a * b) % W ^ lhs.length
+    ∧ (addmulNx1 W lhs a b).2 = (val lhs + val a * b) / W ^ lhs.length := by
+  obtain ⟨h1, h2⟩ := addmulNx1Go_spec W lhs a b 0 h
+  have h3 := addmulNx1Go_lt W W_pos lhs a b 0 hl
+  have h4 := addmulNx1Go_carry W lhs a b 0 h hl ha hb W_pos
+  simp only [valB_W, Nat.add_zero] at h1
+  unfold addmulNx1
+  have hlt := val_lt_pow _ h3
+  rw [h2] at hlt
+  obtain ⟨c1, c2⟩ := carry_form _ _ _ _ hlt h1
+  exact ⟨h1, h2, h3, h4, c1, c2⟩
+
+/-- `submul_nx1(lhs, a, b)` (`|lhs| = |a|`): `lhs' + a·b = lhs + W^n·ret`; the returned word
+    (`borrow + carry`, which does not overflow) is exactly `⌈(a·b − lhs) / W^n⌉` (0 if `a·b ≤ lhs`). -/
+theorem submul_nx1_spec (lhs a : List ℕ) (b : ℕ) (h : lhs.length = a.length)
+    (hl : AllLt lhs) (ha : AllLt a) (hb : b < W) :
+    val (submulNx1 W lhs a b).1 + val a * b = val lhs + W ^ lhs.length * (submulNx1 W lhs a b).2
+    ∧ (submulNx1 W lhs a b).1.length = lhs.length ∧ AllLt (submulNx1 W lhs a b).1
+    ∧ (submulNx1 W lhs a b).2 < W
+    ∧ (submulNx1 W lhs a b).2 = (val a * b + W ^ lhs.length - 1 - val lhs) / W ^ lhs.length
+    ∧ val (submulNx1 W lhs a b).1
+        = val lhs + W ^ lhs.length * (submulNx1 W lhs a b).2 - val a * b := by
+  obtain ⟨h1, h2, h3⟩ := submulNx1Go_spec W two_le_W lhs a b 0 0 h hl W_pos
+  simp only [valB_W, Nat.add_zero] at h1
+  unfold submulNx1
+  have hlt := val_lt_pow _ h3
+  rw [h2] at hlt
+  have hlhs := val_lt_pow _ hl
+  obtain ⟨c1, c2⟩ := borrow_form _ _ _ _ _ hlt hlhs h1
+  refine ⟨h1, h2, h3, ?_, c1, c2⟩
+  -- ret < W : W^n·ret ≤ lhs' + a·b < W^n + W^n·(W−1)
+  have hav := val_lt_pow _ ha
+  rw [← h] at hav
+  generalize (submulNx1Go W lhs a b 0 0).2 = ret at *
+  generalize val (submulNx1Go W lhs a b 0 0).1 = x at *
+  generalize W ^ lhs.length = P at *
+  by_contra hcon
+  push Not at hcon
+  have : P * W ≤ P * ret := Nat.mul_le_mul_left P hcon
+  have : val a * b ≤ (P - 1) * (W - 1) := Nat.mul_le_mul (by omega) (by omega)
+  have hP : 0 < P := by omega
+  have hW := W_pos
+  have e : (P - 1) * (W - 1) + P + (W - 1) = P * W := by
+    obtain ⟨p, rfl⟩ : ∃ p, P = p + 1 := ⟨P - 1, by omega⟩
+    obtain ⟨w, hw⟩ : ∃ w, W = w + 1 := ⟨W - 1, by omega⟩
+    rw [hw]; simp only [Nat.add_sub_cancel]; ring
+  omega
+
+/-- `add_nx1(lhs, a)`: `lhs' + W^n·carry = lhs + a` (both early exits included). -/
+theorem add_nx1_spec (lhs : List ℕ) (a : ℕ) (hl : AllLt lhs) :
+    val (addNx1 W lhs a).1 + W ^ lhs.length * (addNx1 W lhs a).2 = val lhs + a
+    ∧ (addNx1 W lhs a).1.length = lhs.length ∧ AllLt (addNx1 W lhs a).1
+    ∧ val (addNx1 W lhs a).1 = (val lhs + a) % W ^ lhs.length
+    ∧ (addNx1 W lhs a).2 = (val lhs + a) / W ^ lhs.length := by
+  obtain ⟨h1, h2⟩ := addNx1_spec W lhs a
+  have h3 := addNx1_lt W W_pos lhs a hl
+  simp only [valB_W] at h1
+  have hlt := val_lt_pow _ h3
+  rw [h2] at hlt
+  obtain ⟨c1, c2⟩ := carry_form _ _ _ _ hlt h1
+  exact ⟨h1, h2, h3, c1, c2⟩
+
+/-! ## `adc_n`, `sbb_n`, `adc`, `sbb`, `carrying_add`, `borrowing_sub` -/
+
+/-- `adc_n(lhs, rhs, carry)` for **any** carry word: `lhs' + W^n·carry' = lhs + rhs[..n] + carry`;
+    it panics (index out of bounds, `none`) exactly when `rhs` is shorter than `lhs`. -/
+theorem adc_n_spec (lhs rhs : List ℕ) (carry : ℕ) :
+    (lhs.length ≤ rhs.length →
+      ∃ r, adcN W lhs rhs carry = some r
+        ∧ val r.1 + W ^ lhs.length * r.2 = val lhs + val (rhs.take lhs.length) + carry
+        ∧ r.1.length = lhs.length ∧ AllLt r.1
+        ∧ val r.1 = (val lhs + val (rhs.take lhs.length) + carry) % W ^ lhs.length
+        ∧ r.2 = (val lhs + val (rhs.take lhs.length) + carry) / W ^ lhs.length)
+    ∧ (rhs.length < lhs.length ↔ adcN W lhs rhs carry = none) := by
+  refine ⟨fun h => ?_, (adcN_none W lhs rhs carry).symm⟩
+  obtain ⟨r, e, h1, h2, h3⟩ := adcN_spec W W_pos lhs rhs carry h
+  simp only [valB_W] at h1
+  have hlt := val_lt_pow _ h3
+  rw [h2] at hlt
+  obtain ⟨c1, c2⟩ := carry_form _ _ _ _ hlt h1
+  exact ⟨r, e, h1, h2, h3, c1, c2⟩
+
+/-- `sbb_n(lhs, rhs, borrow)` for **any** borrow word: `lhs' + rhs[..n] + borrow = lhs + W^n·borrow'`,
+    i.e. `borrow' = ⌈(rhs + borrow − lhs)/W^n⌉` (0 if no borrow); panics exactly when `rhs` is shorter. -/
+theorem sbb_n_spec (lhs rhs : List ℕ) (borrow : ℕ) (hl : AllLt lhs) (hr : AllLt rhs)
+    (hb : borrow < W) :
+    (lhs.length ≤ rhs.length →
+      ∃ r, sbbN W lhs rhs borrow = some r
+        ∧ val r.1 + val (rhs.take lhs.length) + borrow = val lhs + W ^ lhs.length * r.2
+        ∧ r.1.length = lhs.length ∧ AllLt r.1 ∧ r.2 < W
+        ∧ r.2 = (val (rhs.take lhs.length) + borrow + W ^ lhs.length - 1 - val lhs) / W ^ lhs.length
+        ∧ val r.1 = val lhs + W ^ lhs.length * r.2 - (val (rhs.take lhs.length) + borrow))
+    ∧ (rhs.length < lhs.length ↔ sbbN W lhs rhs borrow = none) := by
+  refine ⟨fun h => ?_, (sbbN_none W lhs rhs borrow).symm⟩
+  obtain ⟨r, e, h1, h2, h3, h4⟩ :=
+    sbbN_spec W two_le_W lhs rhs borrow h hl (fun y hy => hr y (List.mem_of_mem_take hy)) hb
+  simp only [valB_W] at h1
+  have hlt := val_lt_pow _ h3
+  rw [h2] at hlt
+  have hlhs := val_lt_pow _ hl
+  obtain ⟨c1, c2⟩ := borrow_form (W ^ lhs.length) (val r.1) (val lhs)
+    (val (rhs.take lhs.length) + borrow) r.2 hlt hlhs (by omega)
+  exact ⟨r, e, h1, h2, h3, h4, c1, c2⟩
+
+/-- `adc`: `(lhs + rhs + carry)` split into low word and carry word (any carry word). -/
+theorem adc_word_spec (l r c : ℕ) :
+    (adc W l r c).1 = (l + r + c) % W ∧ (adc W l r c).2 = (l + r + c) / W := ⟨rfl, rfl⟩
+
+/-- `sbb` on words (any borrow word): `low + rhs + borrow = lhs + W·out`, `out ∈ {0,1,2}`. -/
+theorem sbb_word_spec (l r c : ℕ) (hl : l < W) (hr : r < W) (hc : c < W) :
+    (sbb W l r c).1 + r + c = l + W * (sbb W l r c).2 ∧ (sbb W l r c).1 < W
+    ∧ (sbb W l r c).2 ≤ 2 ∧ (c ≤ 1 → (sbb W l r c).2 ≤ 1) := by
+  obtain ⟨h1, h2, h3, _, h5⟩ := Limb.sbb_spec W l r c two_le_W hl hr hc
+  exact ⟨h1, h2, h3, h5⟩
+
+/-- `carrying_add`: `r + W·carry' = lhs + rhs + carry`. -/
+theorem carrying_add_spec (a b : ℕ) (c : Bool) (ha : a < W) (hb : b < W) :
+    (Add.carryingAdd a b c).1 + W * (Add.carryingAdd a b c).2.toNat = a + b + c.toNat
+    ∧ (Add.carryingAdd a b c).1 < W := Add.carryingAdd_spec a b c ha hb
+
+/-- `borrowing_sub`: `r + rhs + borrow = lhs + W·borrow'`. -/
+theorem borrowing_sub_spec (a b : ℕ) (c : Bool) (ha : a < W) (hb : b < W) :
+    (Add.borrowingSub a b c).1 + b + c.toNat = a + W * (Add.borrowingSub a b c).2.toNat
+    ∧ (Add.borrowingSub a b c).1 < W := Add.borrowingSub_spec a b c ha hb
+
+/-! ## `shift_left_small`, `shift_right_small` (all `amount < 64`, including 0 — after the fix) -/
+
+/-- `shift_left_small(limbs, amount)`: `limbs' + W^n·out = limbs · 2^amount`: the shifted limbs
+    and exactly the bits shifted out of the top. -/
+theorem shift_left_small_spec (limbs : List ℕ) (amount : ℕ) (h : amount < 64) (hx : AllLt limbs) :
+    val (shlSmall limbs amount).1 + W ^ limbs.length * (shlSmall limbs amount).2
+      = val limbs * 2 ^ amount
+    ∧ (shlSmall limbs amount).1.length = limbs.length ∧ AllLt (shlSmall limbs amount).1
+    ∧ val (shlSmall limbs amount).1 = (val limbs * 2 ^ amount) % W ^ limbs.length
+    ∧ (shlSmall limbs amount).2 = (val limbs * 2 ^ amount) / W ^ limbs.length := by
+  obtain ⟨h1, h2, h3, _⟩ := shlSmall_spec limbs amount h hx
+  have hlt := val_lt_pow _ h2
+  rw [h3] at hlt
+  obtain ⟨c1, c2⟩ := carry_form _ _ _ _ hlt h1
+  exact ⟨h1, h3, h2, c1, c2⟩
+
+/-- `shift_right_small(limbs, amount)`: the limbs of `⌊limbs / 2^amount⌋` and the `amount` bits
+    shifted out of the bottom, left-aligned in the returned word. -/
+theorem shift_right_small_spec (limbs : List ℕ) (amount : ℕ) (h : amount < 64) (hx : AllLt limbs) :
+    val (shrSmall limbs amount).1 = val limbs / 2 ^ amount
+    ∧ (shrSmall limbs amount).2 = (val limbs % 2 ^ amount) * 2 ^ (64 - amount)
+    ∧ (shrSmall limbs amount).1.length = limbs.length ∧ AllLt (shrSmall limbs amount).1 := by
+  obtain ⟨h1, h2, h3, h4⟩ := shrSmall_spec limbs amount h hx
+  exact ⟨h1, h2, h4, h3⟩
+
+/-- The defect that was fixed: the original loops evaluated `x >> 64` for `amount = 0` (a panic
+    under overflow checks), although `0 < 64` meets the stated precondition. -/
+theorem shift_small_orig_amount0_fails :
+    shlSmallOrig [1, 2] 0 = none ∧ shrSmallOrig [1, 2] 0 = none := by decide
+
+/-! ## `cmp` -/
+
+/-- `cmp` orders equal-length slices as the integers they denote. -/
+theorem cmp_spec (l r : List ℕ) (h : l.length = r.length) (hl : AllLt l) (hr : AllLt r) :
+    Limb.cmp l r = compare (val l) (val r) := by
+  unfold Limb.cmp
+  rw [cmpLimbs_spec W l r h hl hr, valB_W, valB_W, h]
+  cases compare (val l) (val r) <;> simp
+
+/-- `cmp` as written, for any two lengths: the common low `min` limbs decide (as integers); only
+    if they are equal does the length comparison decide. -/
+theorem cmp_any_length (l r : List ℕ) (hl : AllLt l) (hr : AllLt r) :
+    Limb.cmp l r = (compare (val (l.take (min l.length r.length))) (val (r.take (min l.length r.length)))).then
+      (compare l.length r.length) := by
+  unfold Limb.cmp
+  rw [cmpLimbs_take, cmpLimbs_spec W _ _ (by simp) (fun y hy => hl y (List.mem_of_mem_take hy))
+    (fun y hy => hr y (List.mem_of_mem_take hy)), valB_W, valB_W]
+  cases compare (val _) (val _) <;> simp [Ordering.then]
+
+/-! ## non-vacuity: concrete branch witnesses evaluated by the kernel -/
+
+-- short-window arm + early carry: 1-limb accumulator, 2×2-limb product overflows
+example : addmul W [5] [W - 1, W - 1] [W - 1, 1] = ([6], true) := by decide +kernel
+-- trimming advances the window past zero low limbs; product lands exactly on the top limb
+example : addmul W [7, 8, 9] [0, 3] [0, 4] = ([7, 8, 21], false) := by decide +kernel
+-- zero-trimmed operand exhausts the window: overflow although the accumulator is untouched
+example : addmul W [7] [0, 3] [4] = ([7], true) := by decide +kernel
+-- exact fit on the boundary `W^2 - 1`
+example : addmul W [W - 1, 0] [W - 1] [W - 1] = ([0, W - 1], false) := by decide +kernel
+example : addmulN W [1, 2] [W - 1, W - 1] [W - 1, W - 1] = some [2, 2] := by decide +kernel
+example : submulNx1 W [0, 0] [W - 1, W - 1] (W - 1) = ([W - 1, 0], W - 1) := by decide +kernel
+example : shlSmall [1 <<< 63, 1] 1 = ([0, 3], 0) ∧ shrSmall [1, 1] 1 = ([1 <<< 63, 0], 1 <<< 63) := by
+  decide +kernel
+example : Limb.cmp [5] [3, 0] = .gt := by decide +kernel
+
 end Ruint.C15
